@@ -2,7 +2,7 @@
    buffers that container already reaches or to newly allocated ones; with the copy loop of
    copyArgs as coded two containers never reach a common buffer, so they stay independent. *)
 From Coq Require Import Strings.String Strings.Byte.
-From Coq Require Import List Arith NArith ZArith Bool Lia.
+From Coq Require Import List Arith NArith ZArith Bool Lia Permutation.
 From Verif Require Import Base.Bytes Base.Val Model.Pools Model.PoolsAlias.
 Import ListNotations.
 
@@ -366,3 +366,188 @@ Lemma alias_witness2 :
   let w := fst (wrun g1 true world_empty alias_history2) in
   habs (w_heap w) (w_a w) = [(str "auth", str "admin"); (str "role", str "guest")].
 Proof. vm_compute. reflexivity. Qed.
+
+(* ==================================================================== swap maps *)
+Lemma upd_nth_same {A} n (x d : A) l : n < length l -> nth n (upd_nth n x l) d = x.
+Proof.
+  revert n; induction l as [|a l IH]; intros [|n] H; cbn in *; try lia; auto. apply IH. lia.
+Qed.
+
+Lemma nth_app_last {A} (l : list A) x d : nth (length l) (l ++ [x]) d = x.
+Proof. rewrite app_nth2 by lia. rewrite Nat.sub_diag. reflexivity. Qed.
+
+Definition SInv (w : sworld) : Prop :=
+  (forall i, sw_sock w = Some i -> i < length (sw_heap w)) /\
+  (forall j, sw_ctx w = Some j -> j < length (sw_heap w)) /\
+  (forall i j, sw_sock w = Some i -> sw_ctx w = Some j -> i <> j).
+
+Lemma SInv_new : SInv sworld_new.
+Proof. repeat split; cbn; intros; discriminate. Qed.
+
+Lemma mread_app hp x o : (forall i, o = Some i -> i < length hp) -> mread (hp ++ [x]) o = mread hp o.
+Proof. intros H. destruct o as [i|]; [|reflexivity]. cbn. apply app_nth1. apply H. reflexivity. Qed.
+
+Definition touches_session (o : wop) : bool := match o with WSockStore _ _ => true | _ => false end.
+
+(* one step of the code as it is: the invariant is kept; unless the session itself is written
+   to, the session's entries stay what they were; and a new message's context starts with a
+   copy of exactly those *)
+Lemma SInv_intro hp so sc :
+  (forall i, so = Some i -> i < length hp) -> (forall j, sc = Some j -> j < length hp) ->
+  (forall i j, so = Some i -> sc = Some j -> i <> j) -> SInv (mkSW hp so sc).
+Proof. intros A B C. split; [exact A|split; [exact B|exact C]]. Qed.
+
+Lemma sw_step_ok w o : SInv w ->
+  SInv (sw_step false w o) /\
+  (touches_session o = false -> sock_view (sw_step false w o) = sock_view w) /\
+  (o = WReinit -> ctx_view (sw_step false w o) = copy_entries (sock_view w)).
+Proof.
+  intros I0. pose proof I0 as (Is & Ic & Id). destruct o; cbn [sw_step touches_session].
+  - (* reinit *) unfold sw_reinit. cbn beta iota delta [andb]. split; [|split].
+    + apply SInv_intro; rewrite ?app_length; cbn [length].
+      * intros i H. specialize (Is i H). lia.
+      * intros j H. inversion H. lia.
+      * intros i j H1 H2. inversion H2. specialize (Is i H1). lia.
+    + intros _. unfold sock_view. cbn [sw_heap sw_sock]. apply mread_app. exact Is.
+    + intros _. unfold ctx_view. cbn [sw_heap sw_ctx mread]. apply nth_app_last.
+  - (* ctx store *) destruct (sw_ctx w) as [j|] eqn:Ej.
+    + split; [|split].
+      * apply SInv_intro; rewrite ?upd_nth_length.
+        -- exact Is.
+        -- intros j0 H. inversion H; subst. apply Ic. reflexivity.
+        -- intros i j0 H1 H2. inversion H2; subst. apply Id; auto.
+      * intros _. unfold sock_view. cbn [sw_heap sw_sock]. destruct (sw_sock w) as [i|] eqn:Ei; [|reflexivity].
+        cbn. apply upd_nth_other. apply (Id i j); auto.
+      * intros H. discriminate H.
+    + split; [|split].
+      * exact I0.
+      * reflexivity.
+      * intros H. discriminate H.
+  - (* session store *) split; [|split; intros H; discriminate H].
+    unfold sw_sock_map. destruct (sw_sock w) as [i|] eqn:Ei.
+    + apply SInv_intro; rewrite ?upd_nth_length.
+      * intros i0 H. cbn [sw_sock] in H. rewrite Ei in H. apply Is. exact H.
+      * exact Ic.
+      * intros i0 j H1 H2. cbn [sw_sock] in H1. rewrite Ei in H1. apply Id; auto.
+    + cbn [fst snd sw_heap sw_sock sw_ctx]. apply SInv_intro; rewrite ?upd_nth_length, ?app_length; cbn [length].
+      * intros i H. inversion H. lia.
+      * intros j H. specialize (Ic j H). lia.
+      * intros i j H1 H2. inversion H1. specialize (Ic j H2). lia.
+Qed.
+
+Lemma sw_run_ok ops : forall w, SInv w -> forallb (fun o => negb (touches_session o)) ops = true ->
+  SInv (sw_run false w ops) /\ sock_view (sw_run false w ops) = sock_view w.
+Proof.
+  unfold sw_run. induction ops as [|o r IH]; intros w I H; cbn [fold_left]; [auto|].
+  cbn in H. apply andb_true_iff in H as [Ho Hr]. apply negb_true_iff in Ho.
+  destruct (sw_step_ok w o I) as (I1 & S1 & _).
+  destruct (IH _ I1 Hr) as [I2 S2]. split; [exact I2|]. rewrite S2. apply S1. exact Ho.
+Qed.
+
+(* whatever earlier messages' handlers stored in their contexts, the next message's context
+   shows the session's entries and nothing else, and the session still holds exactly its own *)
+Lemma sw_next_message_clean ops w : SInv w -> forallb (fun o => negb (touches_session o)) ops = true ->
+  let w' := sw_step false (sw_run false w ops) WReinit in
+  ctx_view w' = copy_entries (sock_view w) /\ sock_view w' = sock_view w.
+Proof.
+  intros I H. destruct (sw_run_ok ops w I H) as [I1 S1].
+  destruct (sw_step_ok (sw_run false w ops) WReinit I1) as (_ & S2 & C2).
+  cbv zeta. split.
+  - rewrite (C2 eq_refl), S1. reflexivity.
+  - rewrite (S2 eq_refl), S1. reflexivity.
+Qed.
+
+Definition swap_leak_history : list wop :=
+  [WSockStore (str "session-user") (str "alice"); WReinit; WCtxStore (str "accept-encrypt") (str "1"); WReinit].
+
+Lemma swap_leak_witness :
+  sock_view (sw_run true sworld_new swap_leak_history)
+    = [(str "accept-encrypt", str "1"); (str "session-user", str "alice")] /\
+  ctx_view (sw_run true sworld_new swap_leak_history)
+    = [(str "accept-encrypt", str "1"); (str "session-user", str "alice")] /\
+  sock_view (sw_run false sworld_new swap_leak_history) = [(str "session-user", str "alice")] /\
+  ctx_view (sw_run false sworld_new swap_leak_history) = [(str "session-user", str "alice")].
+Proof. vm_compute. repeat split. Qed.
+
+(* ==================================================================== pool discipline *)
+Definition PInv (st : pstate) : Prop :=
+  NoDup (p_pool st ++ p_held st) /\ forall x, In x (p_pool st ++ p_held st) -> x < p_next st.
+
+Lemma PInv_new : PInv pool_new.
+Proof. split; [constructor|intros x []]. Qed.
+
+Lemma perm_remove_at {A} i (l : list A) x : nth_error l i = Some x -> Permutation l (x :: remove_at i l).
+Proof.
+  revert i; induction l as [|a l IH]; intros [|i] H; cbn in *; try discriminate.
+  - inversion H. reflexivity.
+  - apply IH in H. rewrite perm_swap. constructor. exact H.
+Qed.
+
+Lemma nodup_app_disj {A} (l1 l2 : list A) x : NoDup (l1 ++ l2) -> In x l1 -> In x l2 -> False.
+Proof.
+  induction l1 as [|a l1 IH]; cbn; intros N H1 H2; [destruct H1|].
+  inversion N as [|? ? Hn N']; subst. destruct H1 as [->|H1].
+  - apply Hn. apply in_or_app. right. exact H2.
+  - apply IH; auto.
+Qed.
+
+Lemma pstep_ok st o : PInv st -> disciplined o = true ->
+  PInv (pstep st o) /\
+  (forall c, o = PGet c -> ~ In (pget_obj st c) (p_held st)).
+Proof.
+  intros [N B] D. destruct o as [choice|i| |x]; try discriminate; cbn [pstep].
+  - (* Get *)
+    assert (Fresh : PInv (mkP (p_pool st) (p_next st :: p_held st) (S (p_next st))) /\ ~ In (p_next st) (p_held st)).
+    { split; [split|]; cbn [p_pool p_held p_next].
+      - apply (Permutation_NoDup (Permutation_middle (p_pool st) (p_held st) (p_next st))).
+        constructor; [|exact N]. intros H. apply B in H. lia.
+      - intros y Hy. apply in_app_or in Hy as [Hy|Hy].
+        + assert (y < p_next st) by (apply B, in_or_app; left; exact Hy). lia.
+        + destruct Hy as [<-|Hy]; [lia|]. assert (y < p_next st) by (apply B, in_or_app; right; exact Hy). lia.
+      - intros H. assert (p_next st < p_next st) by (apply B, in_or_app; right; exact H). lia. }
+    destruct choice as [i|].
+    + destruct (nth_error (p_pool st) i) as [x|] eqn:E.
+      * pose proof (perm_remove_at i (p_pool st) x E) as P.
+        assert (P2 : Permutation (p_pool st ++ p_held st) (remove_at i (p_pool st) ++ x :: p_held st)).
+        { rewrite P at 1. cbn. apply Permutation_middle. }
+        split.
+        -- split; cbn [p_pool p_held p_next].
+           ++ apply (Permutation_NoDup P2). exact N.
+           ++ intros y Hy. apply B. apply (Permutation_in y (Permutation_sym P2)). exact Hy.
+        -- intros c Hc. inversion Hc; subst. unfold pget_obj. rewrite E.
+           intros H. apply nth_error_In in E. exact (nodup_app_disj _ _ x N E H).
+      * destruct Fresh as [F1 F2]. split; [exact F1|]. intros c Hc. inversion Hc; subst. unfold pget_obj. rewrite E. exact F2.
+    + destruct Fresh as [F1 F2]. split; [exact F1|]. intros c Hc. inversion Hc; subst. exact F2.
+  - (* Put *) split; [|intros c Hc; discriminate].
+    destruct (nth_error (p_held st) i) as [x|] eqn:E; [|split; auto].
+    pose proof (perm_remove_at i (p_held st) x E) as P.
+    assert (P2 : Permutation (p_pool st ++ p_held st) ((x :: p_pool st) ++ remove_at i (p_held st))).
+    { rewrite P at 1. cbn. symmetry. apply Permutation_middle. }
+    split; cbn [p_pool p_held p_next].
+    + apply (Permutation_NoDup P2). exact N.
+    + intros y Hy. apply B. apply (Permutation_in y (Permutation_sym P2)). exact Hy.
+  - (* Drop *) split; [|intros c Hc; discriminate]. split; cbn [p_pool p_held p_next app].
+    + clear B. induction (p_pool st) as [|a l IH]; [exact N|]. inversion N; subst. apply IH. assumption.
+    + intros y Hy. apply B. apply in_or_app. right. exact Hy.
+Qed.
+
+Lemma prun_ok ops : forall st, PInv st -> forallb disciplined ops = true -> PInv (fold_left pstep ops st).
+Proof.
+  induction ops as [|o r IH]; intros st I H; cbn [fold_left]; [exact I|].
+  cbn in H. apply andb_true_iff in H as [Ho Hr]. apply IH; [|exact Hr]. apply pstep_ok; auto.
+Qed.
+
+(* after any disciplined history, the object a Get hands out is held by nobody *)
+Lemma pool_exclusive ops c : forallb disciplined ops = true ->
+  let st := fold_left pstep ops pool_new in ~ In (pget_obj st c) (p_held st).
+Proof.
+  intros H. cbv zeta. pose proof (prun_ok ops pool_new PInv_new H) as I.
+  destruct (pstep_ok _ (PGet c) I eq_refl) as [_ E]. apply E. reflexivity.
+Qed.
+
+(* a second Put of the same object: the pool then hands it to two holders *)
+Lemma double_put_witness :
+  let st := fold_left pstep [PGet None; PPut 0; PPutAgain 0; PGet (Some 0)] pool_new in
+  In (pget_obj st (Some 0)) (p_held st).
+Proof. vm_compute. left. reflexivity. Qed.
+
